@@ -337,10 +337,37 @@ def run(F, scopes, rule_id="R24"):
     callers = None
     vis = {b.path: b.get("vis") for b in F.bodies if not b.is_closure()}
 
+    # thin wrappers: a function whose result is the result of exactly one call of another function of the library (and which makes
+    # no other fallible call) produces the same error as that function — `pub fn tp_flash_(..) { self.tp_flash_with(.., options.into()) }`.
+    # Producer names are compared modulo this forwarding (a reviewed row names either of the two).
+    core = {}
+    for g in F.bodies:
+        if g.is_closure() or not g.path.startswith(("feos_core::", "feos_dft::", "feos::")) or len(g.blocks) > 40:
+            continue
+        fallible = [t for _bi, t in g.calls() if not t["dest"]["p"] and carries_solver_error((g.lty(t["dest"]["l"]) or {}).get("s"))
+                    and str(callee(t)[2]) not in PASS_ON and str(callee(t)[2]) not in PROPAGATE]
+        if len(fallible) == 1 and fallible[0]["dest"]["l"] == 0 and F.callee_body(fallible[0]) is not None:
+            a_, b_ = g.path.split("::")[-1], str(callee(fallible[0])[2])
+            if a_ != b_:
+                core[a_] = b_
+
+    def canon(name):
+        for _ in range(4):
+            if name not in core:
+                break
+            name = core[name]
+        return name
+
+    def canon_chain(chain):
+        return ">".join(canon(x) for x in chain.split(">"))
+
     def rows_for(root, producer):
         # a row for a chain `a>b` (the failure of either step is absorbed at one place) also accepts the two steps absorbed at
         # two places of the same function (`if let Ok(x) = a() { let r = b(x); if r.is_ok() { return r } }`)
-        return [i for i, t in enumerate(table) if root.endswith(t["fn"]) and (t["producer"] == producer or producer in t["producer"].split(">"))]
+        pc = canon_chain(producer)
+        return [i for i, t in enumerate(table) if root.endswith(t["fn"])
+                and (t["producer"] == producer or producer in t["producer"].split(">")
+                     or canon_chain(t["producer"]) == pc or pc in canon_chain(t["producer"]).split(">"))]
 
     # a site is keyed by (function, call that first produced the Result).  The *kind* of consumer (`.ok()`, `is_ok()`, `if let Ok`)
     # and Result -> Result adaptors in between are spelling; a site inside a helper (private or a new public stage of a split function) that has no row of its own is charged to
@@ -391,7 +418,7 @@ def run(F, scopes, rule_id="R24"):
             continue
         for i in set(rows):
             per_row[i] += ss
-            per_row_parts[i].add(producer)
+            per_row_parts[i].add(canon_chain(producer))
         r.inst(iid, ss[0]["span"], "ok", sites=len(ss), kinds=kinds, charged_to=charged[-1], reviewed=table[rows[0]]["why"])
     roots = {b.path.split("::{closure")[0] for b in F.bodies}
     for i, t in enumerate(table):
@@ -409,7 +436,8 @@ def run(F, scopes, rule_id="R24"):
         # two-sided: a reviewed recovery (alternative start value, retry) must not silently disappear or be narrowed
         want = t.get("count", 1)          # impls of one trait method share a row; only some of them have the recovery
         seen_parts = per_row_parts.get(i, set())
-        if t.get("recovery") and len(parts) > 1 and seen_parts and t["producer"] not in seen_parts and not set(parts) <= seen_parts:
+        cparts = [canon(x) for x in parts]
+        if t.get("recovery") and len(parts) > 1 and seen_parts and canon_chain(t["producer"]) not in seen_parts and not set(cparts) <= seen_parts:
             fn = sorted(fns, key=len)[0]
             iid = "absorb|%s|%s|removed" % (t["fn"], t["producer"])
             r.inst(iid, "-", "violation")
